@@ -11,6 +11,8 @@
 
 #include "ParameterFile.hpp"
 #include "PhotonSourceDistributionFactory.hpp"
+#include "AlveliusTurbulenceForcing.hpp"
+#include "HydroMaskFactory.hpp"
 #include "LiveOutputManager.hpp"
 #include "TimeLine.hpp"
 
@@ -96,10 +98,13 @@ std::string roundtrip_dump(const std::string &in, const std::string &out,
     RestartReader rd(in);
     Timer t1(rd), t2(rd), t3(rd), t4(rd);
     ParameterFile params(rd);
+    HydroMask *mask = c.mask ? HydroMaskFactory::restart(rd, nullptr) : nullptr;
     const uint_fast32_t lastsnap = rd.read< uint_fast32_t >();
     const uint_fast32_t lastrad = rd.read< uint_fast32_t >();
     const int_fast32_t seed = rd.read< int_fast32_t >();
     DensitySubGridCreator< HydroDensitySubGrid > grid(rd);
+    AlveliusTurbulenceForcing *turb =
+        c.turbulence ? new AlveliusTurbulenceForcing(rd) : nullptr;
     PhotonSourceDistribution *src =
         PhotonSourceDistributionFactory::restart(rd, nullptr);
     LiveOutputManager live(grid.get_subgrid_layout(),
@@ -117,10 +122,14 @@ std::string roundtrip_dump(const std::string &in, const std::string &out,
     t3.write_restart_file(w);
     t4.write_restart_file(w);
     params.write_restart_file(w);
+    if (mask)
+      HydroMaskFactory::write_restart_file(w, *mask);
     w.write(lastsnap);
     w.write(lastrad);
     w.write(seed);
     grid.write_restart_file(w);
+    if (turb)
+      turb->write_restart_file(w);
     PhotonSourceDistributionFactory::write_restart_file(w, *src);
     live.write_restart_info(w);
     tl.write_restart_file(w);
@@ -130,8 +139,9 @@ std::string roundtrip_dump(const std::string &in, const std::string &out,
     w.write(actual);
     w.write(now);
     delete src;
+    delete turb;
+    delete mask;
   }
-  (void)c;
   return slurp(out);
 }
 
@@ -312,6 +322,14 @@ public:
       c.steps = (int)r.range(3, 8);
       c.dump_every_step = true;
       c.backups = (int)r.range(0, 3);
+      // restartable optional components
+      c.mask = r.chance(0.25);
+      c.turbulence = r.chance(0.25);
+      c.live_output = r.chance(0.3);
+      c.live_mask = (int)r.below(16);
+      c.gravity = r.chance(0.2);
+      c.source_type = (int)r.below(4);
+      c.feedback = c.source_type == 3 && r.chance(0.7);
       if (r.chance(0.8) && c.dyadic) {
         c.dyadic = false;
         for (int k = 0; k < 3; ++k) {
@@ -341,6 +359,8 @@ public:
       c.writer = r.chance(0.3) ? 1 : 0;
       c.dump_every_step = r.chance(0.5);
       c.restart_midway = c.dump_every_step && r.chance(0.6) && c.steps >= 2;
+      c.source_type = (int)r.below(4);
+      c.feedback = c.source_type == 3 && r.chance(0.5);
       c.backups = (int)r.range(0, 3);
       c.threads = std::min(c.threads, 6);
     }
@@ -396,6 +416,7 @@ public:
           extra2.push_back(dir);
           extra2.push_back("--number-of-steps");
           extra2.push_back(std::to_string(c.steps));
+          scrub_memory(0xA5);
           rc = run_rhd(pf, c.threads, extra2);
         }
       } else {
@@ -690,6 +711,10 @@ Outcome ERhdEngine::execute_c09(const Cfg &c, const Json &cj) {
       }
     };
     run_begin(c.sched, &L);
+    // every (re)started process image begins from hostile memory, so that a
+    // member a restart constructor forgets to set cannot inherit the right
+    // value from the previous run in this process
+    scrub_memory(0xA5);
     rr.finished = guarded([&]() { rr.rc = run_rhd(pf, 1, extra); });
     RunStats rs = run_end();
     if (!rr.finished) {
